@@ -16,6 +16,15 @@ Theorem C07_no_fault_any_reachable_state : forall w ev f, reachable w -> step w 
 Proof. exact step_never_faults. Qed.
 Print Assumptions C07_no_fault_any_reachable_state.
 
+(* `event` includes EvReportWF - a report served while every write on the PFCP socket fails (the first transmission of
+   a Session Report Request is lost inside the UPF, the request stays registered) - so the two theorems above cover
+   histories with such failures, and whatever datagram follows (a response with that sequence number, from anyone) is
+   an ordinary event of a reachable state.  Explicitly: *)
+Theorem C07_failed_write_then_any_event : forall w seid items e w' o ev f,
+  reachable w -> step w (EvReportWF seid items e) = Ok (w', o) -> step w' ev <> Fault f.
+Proof. intros w seid items e w' o ev f Hr E. apply step_never_faults. eapply reach_step; eauto. Qed.
+Print Assumptions C07_failed_write_then_any_event.
+
 (* in every state, a Heartbeat Request that is not a retransmission is answered with one Heartbeat Response to
    its sender carrying its sequence number, and nothing but the transaction bookkeeping changes *)
 Theorem C07_heartbeat_answered : forall w peer seq e,
